@@ -245,6 +245,34 @@ pub fn main(tier: Tier, replay: Option<String>) -> i32 {
     let probes = vec![0, 1, 0xD7FB, 0xD7FC, 0xD7FD, 0xD7FE, 0xD7FF, 0xE000, 0xE001, 0xE002, 0xE003, 0x10FFFB, 0x10FFFC, 0x10FFFD, 0x10FFFE, 0x10FFFF];
     let b = json!({"menu_lines": menu.len(), "max_lines": tier.pick(3, 4)});
     jobs.push(job(DefSpace { label: "chardef/surrogate-gap-and-top".into(), menu, max_lines: tier.pick(3, 4), probes }, Strategy::Dfs, Some(tier.pick(30, 1500)), b));
+    // wide ranges whose ends sit on the structural boundaries of the encodings (last ASCII / first
+    // two-byte / last Latin-1 / two- to three-byte / BMP to astral), probed densely: every scalar
+    // below U+0120 and the neighbours of every boundary (a table for "small" code points must not
+    // lose its last entry)
+    {
+        let pts: Vec<u32> = vec![0x20, 0x7E, 0x7F, 0x80, 0xFF, 0x100, 0x7FF, 0x800, 0xFFFF, 0x10000];
+        let mut menu = Vec::new();
+        for (i, &a) in pts.iter().enumerate() {
+            for &b in &pts[i..] {
+                for s in &sets[..2] {
+                    menu.push(Line { lo: a, hi: b, classes: s.clone() });
+                }
+            }
+        }
+        let mut probes: Vec<u32> = (0..0x120).collect();
+        for &p in &pts {
+            for d in [-2i64, -1, 0, 1, 2] {
+                let v = p as i64 + d;
+                if v >= 0x120 {
+                    probes.push(v as u32);
+                }
+            }
+        }
+        probes.sort();
+        probes.dedup();
+        let b = json!({"menu_lines": menu.len(), "max_lines": 2, "boundaries": pts, "probes": probes.len()});
+        jobs.push(job(DefSpace { label: "chardef/encoding-boundaries".into(), menu, max_lines: 2, probes }, Strategy::Dfs, Some(tier.pick(60, 1500)), b));
+    }
     // shipped files: all scalars
     for rel in ["resources/char.def", "sudachi/tests/resources/char.def", "python/tests/resources/char.def"] {
         let path = repo_root().join(rel);
